@@ -690,3 +690,139 @@ Proof.
   destruct (fit_bisect 63 E n V T cap HV HT Hc HE Hn Ht Hf (depth_64 _ HA)) as (x & H1 & H2 & H3 & _).
   exists x. auto.
 Qed.
+
+(* ------------------------------------------------------------------------------------------ *)
+(* bisection stopping a hair above the transition: the battery then follows the other closed  *)
+(* form; the difference is second order in the overshoot                                      *)
+(* ------------------------------------------------------------------------------------------ *)
+Lemma exp_neg_le_inv y : 0 <= y -> exp (- y) <= / (1 + y).
+Proof.
+  intro Hy. pose proof (exp_ineq1_le y) as H1. pose proof (exp_pos y) as H2.
+  assert (H3 : exp (- y) = / exp y) by apply exp_Ropp. rewrite H3.
+  apply Rinv_le_contravar; lra.
+Qed.
+
+Lemma above_delivers_bound A x delta :
+  1/1000 <= A -> 4/5 < x <= 1 ->
+  1/5 * (1 - exp (-5 * A)) < delta ->            (* the closed-form test failed *)
+  Rabs (Dn A x - delta) < tol9 ->                (* bisection accuracy at x *)
+  Rabs ((1 + exp (-5 * A) * (x - 1)) - x - delta) < 2 * tol9.
+Proof.
+  intros HA Hx Hcf Hacc. unfold tol9 in *.
+  set (P := exp (-5 * A)) in *. set (e := x - 4/5). assert (He : 0 < e <= 1/5) by (unfold e; lra).
+  assert (HP0 : 0 < P) by apply exp_pos.
+  assert (HP1 : P <= 200/201).
+  { unfold P. replace (-5 * A) with (- (5 * A)) by ring.
+    pose proof (exp_neg_le_inv (5 * A) ltac:(lra)) as H.
+    assert (/ (1 + 5 * A) <= / (201/200)) by (apply Rinv_le_contravar; lra).
+    replace (/ (201/200)) with (200/201) in * by field. lra. }
+  rewrite Dn_ramp in Hacc by lra.
+  replace (-5 * (A + x - 4/5)) with (-5 * A + -5 * e) in Hacc by (unfold e; ring).
+  rewrite exp_plus in Hacc. fold P in Hacc.
+  set (Qe := exp (-5 * e)) in *.
+  assert (HQ0 : 1 - 5 * e <= Qe) by (unfold Qe; pose proof (exp_ineq1_le (-5 * e)); lra).
+  assert (HQ1 : Qe * (1 + 5 * e) <= 1).
+  { unfold Qe. replace (-5 * e) with (- (5 * e)) by ring.
+    pose proof (exp_neg_le_inv (5 * e) ltac:(lra)) as H.
+    apply (Rmult_le_compat_r (1 + 5 * e)) in H; [|lra].
+    replace (/ (1 + 5 * e) * (1 + 5 * e)) with 1 in H by (field; lra). exact H. }
+  apply Rabs_def2 in Hacc. destruct Hacc as [Hlo Hhi].
+  replace x with (e + 4/5) in * by (unfold e; ring).
+  (* e * (1 - P) < tol *)
+  assert (Hsmall : e * (1 - P) < 1 / 1000000000) by nra.
+  assert (He2 : e < 1 / 1000000) by nra.
+  (* diff = P/5 * (Qe - 1 + 5e) in [0, 5 e^2] *)
+  assert (Hd0 : 0 <= P * (Qe - 1 + 5 * e)) by (apply Rmult_le_pos; lra).
+  assert (Hd1 : Qe - 1 + 5 * e <= 25 * e * e) by nra.
+  assert (Hd2 : P * (Qe - 1 + 5 * e) <= 25 * e * e) by nra.
+  apply Rabs_def1; nra.
+Qed.
+
+Theorem fit_delivers fuel E (n : nat) V T cap init noise :
+  0 < V -> 0 < T -> 0 < cap -> 0 <= E -> (0 < n)%nat ->
+  1/1000 <= Fit_max_dsoc T V cap * INR n ->
+  get_init_cap_R fuel E (INR n) V T cap = FVR init -> 0 <= init ->
+  Rabs (l2_run_R n cap (fit_max_power_R V) Fit_transition_soc Fit_max_rate V T noise init - init - E)
+  < 2 * tol9 * cap.
+Proof.
+  intros HV HT Hc HE Hn HA Hg Hpos.
+  assert (HEc : E / cap * cap = E) by (field; lra).
+  assert (Htol : 0 < tol9) by (unfold tol9; lra).
+  set (m := Fit_max_dsoc T V cap) in *. assert (Hm : 0 < m) by (apply max_dsoc_pos; assumption).
+  destruct (get_init_cap_R_cases fuel E n V T cap init HV HT Hc HE Hn Hg Hpos)
+    as [[Ht Hi]|(Ht & Hfe & x & Hi & Hr & Ha)].
+  - (* closed form: exact *)
+    apply closed_form_test_iff in Ht.
+    destruct (closed_form_delivers E n V T cap noise HV HT Hc HE Hn Ht) as (H1 & _).
+    unfold fit_max_power_R, Fit_max_rate, Fit_transition_soc. rewrite Hi, H1.
+    replace (E - E) with 0 by ring. rewrite Rabs_R0. nra.
+  - fold m in Hfe, Hr, Ha. destruct (Rle_dec x (4/5)) as [Hx|Hx].
+    + (* at or below the transition *)
+      assert (Hlow : init <= 4/5 * cap) by (subst init; nra).
+      pose proof (fit_bisect_delivers fuel E n V T cap init noise HV HT Hc HE Hn Hg Hpos Ht Hlow) as B.
+      nra.
+    + (* a hair above it *)
+      subst init. unfold fit_max_power_R, Fit_max_rate, Fit_transition_soc.
+      rewrite l2_run_spec by assumption. fold m.
+      rewrite soc_iter_above by (try exact Hm; lra).
+      replace (-5 * (INR n * m)) with (-5 * (m * INR n)) by ring.
+      assert (Hcf : 1/5 * (1 - exp (-5 * (m * INR n))) < E / cap).
+      { assert (Hn4 : ~ 4/5 <= init_cf E (INR n) V T cap).
+        { intro H. apply closed_form_test_iff in H. congruence. }
+        unfold init_cf in Hn4. fold m in Hn4.
+        assert (HA0 : 0 < m * INR n) by lra.
+        pose proof (cf_denom_neg m (INR n) HA0) as Hden.
+        set (den := exp (-5 * (m * INR n)) - 1) in *.
+        assert (Hlt : 1 + E / cap / den < 4/5) by lra.
+        assert (Hq : E / cap / den * den = E / cap) by (field; split; lra).
+        assert (E / cap / den < - (1/5)) by lra.
+        set (a := E / cap / den) in *.
+        assert (- (1/5) * den < a * den) by nra.
+        unfold den in *. lra. }
+      pose proof (above_delivers_bound (m * INR n) x (E / cap) HA ltac:(lra) Hcf Ha) as B.
+      replace ((1 + exp (-5 * (m * INR n)) * (x - 1)) * cap - x * cap - E)
+        with ((1 + exp (-5 * (m * INR n)) * (x - 1) - x - E / cap) * cap)
+        by (rewrite !Rmult_minus_distr_r, HEc; ring).
+      rewrite Rabs_mult, (Rabs_pos_eq cap) by lra.
+      apply Rmult_lt_compat_r; assumption.
+Qed.
+
+(* the headline: whatever batt_cap_fn returns, charging at full rate for the stay delivers the request *)
+Theorem batt_cap_fn_delivers fuel E (n : nat) V T cap init noise :
+  0 < V -> 0 < T -> 0 <= E -> (0 < n)%nat ->
+  batt_cap_fn_R fuel E (INR n) V T = FitOkR cap init ->
+  1/1000 <= Fit_max_dsoc T V cap * INR n ->
+  Rabs (l2_run_R n cap (fit_max_power_R V) Fit_transition_soc Fit_max_rate V T noise init - init - E)
+  < 2 * tol9 * cap.
+Proof.
+  intros HV HT HE Hn H HA.
+  destruct (batt_cap_fn_ok fuel E n V T cap init HV HT HE Hn H) as (Hin & _ & [Hpos _] & _ & Hg).
+  assert (Hc : 0 < cap) by (pose proof potential_caps_pos as P; rewrite Forall_forall in P; now apply P).
+  now apply fit_delivers with (fuel := fuel).
+Qed.
+
+(* a concrete instance of the bisection branch: 6 kWh in 12 five-minute periods at 208 V, 8 kWh step *)
+Lemma bisect_example :
+  closed_form_test 6 (INR 12) 208 5 8 = false /\
+  6 / 8 <= Fit_delta_from (Fit_max_dsoc 5 208 8) (INR 12) Fit_transition_soc 0 /\
+  Fit_max_dsoc 5 208 8 * INR 12 <= 1000000000.
+Proof.
+  replace (INR 12) with 12 by (simpl; lra).
+  assert (Hm : Fit_max_dsoc 5 208 8 = 52/750) by (unfold Fit_max_dsoc; field).
+  split; [|split].
+  - destruct (closed_form_test 6 12 208 5 8) eqn:E; auto. apply closed_form_test_iff in E.
+    unfold init_cf in E. rewrite Hm in E.
+    set (P := exp (-5 * (52/750 * 12))) in *.
+    assert (0 < P) by apply exp_pos. assert (P < 1) by (apply exp_lt_1; lra).
+    assert (Hi : / (P - 1) < 0) by (apply Rinv_lt_0_compat; lra).
+    assert (Hk : / (P - 1) <= -1).
+    { apply (Rmult_le_reg_r (- (P - 1))); [lra|].
+      replace (/ (P - 1) * - (P - 1)) with (-1) by (field; lra). lra. }
+    unfold Rdiv at 2 in E. lra.
+  - unfold Fit_transition_soc. rewrite Fit_delta_from_Dn by (rewrite Hm; lra). rewrite Hm.
+    rewrite Dn_ramp by lra.
+    replace (-5 * (52/750 * 12 + 0 - 4/5)) with (- (4/25)) by field.
+    pose proof (exp_neg_le_inv (4/25) ltac:(lra)) as H.
+    replace (/ (1 + 4/25)) with (25/29) in H by field. lra.
+  - rewrite Hm. lra.
+Qed.
